@@ -78,5 +78,7 @@ if __name__ == '__main__':
         main(sys.argv[2:], rename={'A': 'G', 'B': 'H'})
     elif sys.argv[1] == '--wave6':
         main(sys.argv[2:], rename={'A': 'I', 'B': 'J'})
+    elif sys.argv[1] == '--wave7':
+        main(sys.argv[2:], rename={'A': 'K', 'B': 'L'})
     else:
         main(sys.argv[1:])
